@@ -127,3 +127,20 @@ contract(EOCS + "_get_new_velocity", "C07", model="R", params={"old_velocity": "
          canary="result[0] == 0", native_search=False,
          note="sequential direction change (2-D rotation): the speed is conserved for every rotation angle "
               "(cos^2 + sin^2 = 1 is the constructor's invariant, assumed)")
+
+# ---- the helper every single-active-unit handler starts with (an assumed interface of the cell-veto proof until verified here)
+cls("SingleActiveLeafUnitEventHandler", _leaf_units="opt[list[Unit]]", _leaf_cnodes="opt[list[Node]]",
+    _active_leaf_unit="opt[Unit]", _active_leaf_unit_index="int")
+contract("jellyfysh.event_handler.abstracts.abstracts:SingleActiveLeafUnitEventHandler._extract_active_leaf_unit",
+         ["C07", "C18"], model="R", tag="body",
+         requires=["implies(self._leaf_units is not None, forall(0, len(self._leaf_units), lambda j: self._leaf_units[j] is not None))"],
+         may_raise={"AssertionError": []},
+         modifies=["self._active_leaf_unit", "self._active_leaf_unit_index"],
+         ensures=["0 <= self._active_leaf_unit_index < len(self._leaf_units)",
+                  "same(self._active_leaf_unit, self._leaf_units[self._active_leaf_unit_index])",
+                  "self._active_leaf_unit is not None and self._active_leaf_unit.velocity is not None",
+                  # it is the ONLY leaf unit with a velocity
+                  "forall(0, len(self._leaf_units), lambda j: implies(self._leaf_units[j].velocity is not None, "
+                  "j == self._active_leaf_unit_index))"],
+         canary="self._active_leaf_unit_index == 0", native_search=False,
+         note="the active leaf unit is the unique leaf unit with a velocity (AssertionError otherwise)")
